@@ -43,7 +43,7 @@ Print Assumptions C18_hash_iff_refuted.
    `.git` component.  Premises: the hex format, SHA-256 injective on the two manifests and on the
    file contents of the two trees, no rendered path contains a newline (not K18a), and the
    rendered paths of one tree are pairwise distinct (not K18b/c, see C18_render_inj). *)
-Theorem C18_hash_iff_partial : forall (sha : list N -> str) (sha_text : str -> str)
+Theorem C18_hash_iff_rendered : forall (sha : list N -> str) (sha_text : str -> str)
     (root1 : list str) (files1 : list file) (root2 : list str) (files2 : list file),
   sha_ok sha ->
   (forall a b, a = encode_tree (hash_tree_entries sha root1 files1) ->
@@ -55,7 +55,7 @@ Theorem C18_hash_iff_partial : forall (sha : list N -> str) (sha_text : str -> s
   (module_hash sha sha_text root1 (NDir files1) = module_hash sha sha_text root2 (NDir files2) <->
    same_content (tree_content root1 files1) (tree_content root2 files2)).
 Proof. exact module_hash_iff. Qed.
-Print Assumptions C18_hash_iff_partial.
+Print Assumptions C18_hash_iff_rendered.
 
 (* the same for "plain" trees: hashed files have pairwise distinct relative paths whose components
    are non-empty and contain no '/', '\', newline, ill-formed UTF-8 or U+FFFD *)
@@ -71,6 +71,24 @@ Theorem C18_hash_iff_plain : forall (sha : list N -> str) (sha_text : str -> str
    same_content (tree_content root1 files1) (tree_content root2 files2)).
 Proof. exact module_hash_iff_plain. Qed.
 Print Assumptions C18_hash_iff_plain.
+
+(* the same with the known classes as hypotheses.  K18a / K18b / K18c root files = some hashed
+   file has a path component containing a newline / a backslash / ill-formed UTF-8 or U+FFFD;
+   wf_walk = what any directory walk guarantees (non-empty names without '/', no path twice) *)
+Theorem C18_hash_iff_partial : forall (sha : list N -> str) (sha_text : str -> str)
+    (root1 : list str) (files1 : list file) (root2 : list str) (files2 : list file),
+  sha_ok sha ->
+  (forall a b, a = encode_tree (hash_tree_entries sha root1 files1) ->
+               b = encode_tree (hash_tree_entries sha root2 files2) ->
+               sha_text a = sha_text b -> a = b) ->
+  sha_inj_on sha (tree_content root1 files1) (tree_content root2 files2) ->
+  wf_walk root1 files1 -> wf_walk root2 files2 ->
+  ~ K18a root1 files1 -> ~ K18b root1 files1 -> ~ K18c root1 files1 ->
+  ~ K18a root2 files2 -> ~ K18b root2 files2 -> ~ K18c root2 files2 ->
+  (module_hash sha sha_text root1 (NDir files1) = module_hash sha sha_text root2 (NDir files2) <->
+   same_content (tree_content root1 files1) (tree_content root2 files2)).
+Proof. exact module_hash_iff_known. Qed.
+Print Assumptions C18_hash_iff_partial.
 
 (* ---- path rendering (to_string_lossy + '\' -> '/') is injective on plain relative paths ---- *)
 Theorem C18_render_inj : forall p q : list str,
@@ -98,6 +116,13 @@ Theorem C18_order_plain : forall (sha : list N -> str) (root : list str) (files 
   hash_tree_entries sha root files' = hash_tree_entries sha root files.
 Proof. exact entries_order_plain. Qed.
 Print Assumptions C18_order_plain.
+
+Theorem C18_order_partial : forall (sha : list N -> str) (root : list str) (files files' : list file),
+  wf_walk root files -> ~ K18a root files -> ~ K18b root files -> ~ K18c root files ->
+  Permutation files files' ->
+  hash_tree_entries sha root files' = hash_tree_entries sha root files.
+Proof. exact entries_order_known. Qed.
+Print Assumptions C18_order_partial.
 
 (* without distinct rendered paths (K18b) the stable sort keeps the walk order *)
 Theorem C18_order_refuted :
@@ -218,11 +243,7 @@ Theorem C18_locked_commit : forall (ls1 ls2 : str -> str -> option str) (lock : 
   find_locked (m_id m) lock = Some lm -> l_source lm = RGit lurl lcommit lsubdir ->
   resolve_upstream ls1 (Some lock) m = UpGit lurl lcommit lsubdir /\
   resolve_upstream ls1 (Some lock) m = resolve_upstream ls2 (Some lock) m.
-Proof.
-  intros ls1 ls2 lock m lm url ref subdir sh lurl lcommit lsubdir Hs Hf Hl.
-  exact (conj (upstream_locked ls1 lock m lm url ref subdir sh lurl lcommit lsubdir Hs Hf Hl)
-              (upstream_ignores_remote ls1 ls2 lock m lm url ref subdir sh lurl lcommit lsubdir Hs Hf Hl)).
-Qed.
+Proof. exact upstream_locked_both. Qed.
 Print Assumptions C18_locked_commit.
 
 (* ------------------------------------------------------------------ non-vacuity *)
@@ -253,6 +274,14 @@ Proof.
   - vm_compute. reflexivity.
   - vm_compute. reflexivity.
   - vm_compute. reflexivity.
+Qed.
+
+(* the hypotheses of the _partial theorems hold of an ordinary tree *)
+Example C18_nonvacuous_known :
+  wf_walk [s "repo"] ex_files /\ ~ K18a [s "repo"] ex_files /\ ~ K18b [s "repo"] ex_files /\ ~ K18c [s "repo"] ex_files.
+Proof.
+  split; [apply wf_walk_b_ok; vm_compute; reflexivity|].
+  apply known_free_b_ok. vm_compute. reflexivity.
 Qed.
 
 (* entry_ok is satisfiable by a realistic entry list *)
